@@ -189,7 +189,7 @@ def _g_race(rng, prog):
     else:
         a = None
         x = ["start_act", rng.choice(SCRIPTS)]
-    form = rng.choice(["ref", "ref", "ref", "ref", "or", "await", "when", "stop", "stop", "twin"])
+    form = rng.choice(["ref", "ref", "ref", "ref", "or", "await", "when", "stop", "stop", "fin", "fin", "twin"])
     if form == "twin" and a is None:
         form = "ref"
     tail = [["match", rng.choice(EVENTS + ["Never"])]]
@@ -225,17 +225,19 @@ def _g_race(rng, prog):
             cs.reverse()
         tie = [["when", cs, None]]
     else:  # "stop": the killer stops the sender's parent explicitly
-        killer = [["match", e], ["stopflow", rt], ["match", "Never"]]
+        # (the parent, or the sender itself; stopped, or FINISHED from outside)
+        verb, tgt = (rng.choice(["stopflow", "finishflow"]), rng.choice([rt, rs])) if form == "stop" else ("finishflow", rs)
+        killer = [["match", e], [verb, tgt], ["match", "Never"]]
         tie = [["start", rs], ["match", "Never"]]
     new[rk], new[rs] = killer, sender
     kinds[rk] = kinds[rs] = kinds[rt] = "sub"
-    if rng.random() < 0.3 and form != "stop":
+    if rng.random() < 0.3 and form not in ("stop", "fin"):
         tie = tie + [["match", rng.choice(EVENTS)]]
     new[rt] = tie
     # a living flow usually holds the activation already
     ins = [["start", rt]]
-    if form == "stop":
-        ins = [["start", rk], ["start", rt]] if rng.random() < 0.5 else [["start", rt], ["start", rk]]
+    if form in ("stop", "fin"):
+        ins = [["start", rk], ["start", rt]] if rng.random() < 0.6 else [["start", rt], ["start", rk]]
     end = None
     if a is not None and rng.random() < 0.9:
         if rng.random() < 0.6:
